@@ -1,7 +1,7 @@
 (* C19 — alternative entry points for the same structure agree. *)
-From Model Require Import Bytes Prim Tables Cert KAC Sig.
+From Model Require Import LS Bytes Prim Tables Cert KAC Sig.
 From Spec Require Import Wire.
-From Proofs Require Import BytesLemmas PrimProofs Frame LeafProofs TypedRT CtorRT.
+From Proofs Require Import BytesLemmas PrimProofs Frame LeafProofs TypedRT CtorRT LSStrip.
 Open Scope Z_scope.
 Open Scope Z_scope.
 
@@ -64,3 +64,13 @@ Theorem C19_key_certificate_with_types_vs_bytes : forall s c kc, new_key_certifi
   exists k', new_key_certificate (spec_keycert (Z.to_N s) (Z.to_N c) []) = Ok (k', []) /\
              keycert_bytes k' = keycert_bytes kc /\ kc_signing_type k' = s /\ kc_crypto_type k' = c.
 Proof. exact keycert_with_types_agrees. Qed.
+
+(* ReadDestinationFromLeaseSet (the reader used in front of a LeaseSet, which sizes the destination
+   from its certificate's length field) agrees with ReadDestination on every input it accepts: the
+   same remainder, a destination with the same serialisation and the same key types *)
+Theorem C19_destination_from_leaseset_vs_read_destination : forall d dest rem, wf d ->
+  read_destination_from_leaseset d = Ok (dest, rem) ->
+  exists dest', read_destination d = Ok (dest', rem) /\ kac_bytes dest' = kac_bytes dest /\
+    kc_signing_type (k_kc dest') = kc_signing_type (k_kc dest) /\ kc_crypto_type (k_kc dest') = kc_crypto_type (k_kc dest).
+Proof. exact dfl_agrees_with_read_destination. Qed.
+Print Assumptions C19_destination_from_leaseset_vs_read_destination.
